@@ -485,3 +485,101 @@ Proof.
   - intros i j c. apply shared_readonly_l.
   - intros i. apply orig_to_mutator_l.
 Qed.
+
+(* ---- "exactly": when the fan-out advertises MutatesData, the caller's payload does reach a mutating consumer *)
+Lemma mut_steps_has_last M : M <> [] -> exists i, In (SLast i) (mut_steps M) /\ In i M.
+Proof.
+  induction M as [|a [|b M] IH]; intros NE; [congruence| |].
+  - exists a. simpl. auto.
+  - destruct IH as [i [H1 H2]]; [discriminate|]. exists i. split; [right; exact H1|right; exact H2].
+Qed.
+
+Definition Reach (i : nat) (m : mstate) : Prop :=
+  (In (SLast i) (todo m) /\ cro (get (st m) 0) = false /\ 0 < length (st m) /\
+   forall sp, In sp (todo m) -> is_mut_step sp = true)
+  \/ In (i, 0) (hs m).
+
+Lemma reach_step i m l : Reach i m -> Reach i (mstep 0 m l).
+Proof.
+  intros [[HL [RO [LEN CL]]]|H].
+  - destruct l as [|j w]; cbn [mstep].
+    + destruct (todo m) as [|sp rest] eqn:T; [left; rewrite T; auto|].
+      assert (MS : is_mut_step sp = true) by (apply CL; now left).
+      assert (CL' : forall sp', In sp' rest -> is_mut_step sp' = true) by (intros; apply CL; now right).
+      destruct sp as [j|j|j|j]; try discriminate; cbn [exec_step clone].
+      * left. cbn [todo st]. destruct HL as [E|HL]; [discriminate|].
+        rewrite app_length, get_app_old by auto. repeat split; auto. lia.
+      * unfold is_ro. rewrite RO. cbn [Nat.eqb andb negb].
+        destruct HL as [E|HL].
+        -- injection E as ->. right. cbn [hs]. now left.
+        -- left. cbn [todo st]. auto.
+    + left. destruct (lookup j (hs m)) as [c|]; [|cbn [todo st]; auto].
+      destruct (do_write_cases (st m) c w) as [[_ E]|[[_ [_ E]]|[_ [R' E]]]]; rewrite E; cbn [todo st]; auto.
+      rewrite length_upd. repeat split; auto.
+      destruct (Nat.eq_dec c 0) as [->|N]; [|now rewrite get_upd_other].
+      destruct (Nat.lt_ge_cases 0 (length (st m))); [now rewrite get_upd_same|lia].
+  - right. destruct l as [|j w]; cbn [mstep].
+    + destruct (todo m) as [|sp rest]; auto.
+      destruct (exec_step 0 (st m) sp) as [[s' k] c]. cbn [hs]. now right.
+    + destruct (lookup j (hs m)) as [c|]; [destruct (do_write (st m) c w)|]; auto.
+Qed.
+
+Lemma orig_reaches_mutator_l caps c0 ls :
+  fan_cap (new_fan caps) = true -> length caps <= ncalls ls ->
+  exists i, mutc_of caps i = true /\ holds (run (new_fan caps) false c0 ls) i 0.
+Proof.
+  intros FC LE.
+  assert (F : new_fan caps = FWrap (idx_filter true caps 0) (idx_filter false caps 0)).
+  { destruct caps as [|[|] [|b r]]; try reflexivity. discriminate. }
+  rewrite F in FC. cbn [fan_cap] in FC. apply andb_true_iff in FC. destruct FC as [NM NR].
+  assert (RN : idx_filter false caps 0 = []) by (destruct (idx_filter false caps 0); [auto|discriminate]).
+  assert (MN : idx_filter true caps 0 <> []) by (destruct (idx_filter true caps 0); [discriminate|discriminate]).
+  destruct (mut_steps_has_last _ MN) as [i [HL HI]].
+  exists i. split; [apply idx_filter_mutc in HI; tauto|].
+  assert (R0 : Reach i (init (new_fan caps) false c0)).
+  { left. rewrite F, RN. cbn [init todo st plan ro_steps]. rewrite app_nil_r. repeat split; auto.
+    intros sp H. eapply mut_steps_class; eauto. }
+  assert (NRO : nro (new_fan caps) = 0) by (rewrite F; cbn [nro]; now rewrite RN).
+  assert (RR : forall ls m, Reach i m -> Reach i (fold_left (mstep 0) ls m)).
+  { intros ls'. induction ls' as [|l ls' IH]; simpl; auto. intros m R. apply IH. now apply reach_step. }
+  destruct (run_sync caps false c0 ls) as [_ LT].
+  unfold run in *. rewrite NRO in *.
+  destruct (RR ls _ R0) as [[HT _]|H]; [|exact H].
+  exfalso. destruct (todo (fold_left (mstep 0) ls (init (new_fan caps) false c0))); [contradiction|simpl in LT; lia].
+Qed.
+
+(* ---- graph level: a receiver / connector router feeding several pipelines ------------------- *)
+(* The consumer given to a receiver (receiver.go) and the one a connector forwards to (connector router) is
+   fanoutconsumer.NewX over the pipelines' capabilitiesNodes, whose capability is pipe_cap_t.  A pipeline
+   with a mutating processor, or whose exporter fan-out hands the original to a mutating exporter,
+   advertises MutatesData, hence holds its payload alone — for every schedule of calls and writes. *)
+Lemma mutating_pipeline_isolated_l roots ro_in c0 ls i j c procs exps :
+  let m := run (new_fan (map pipe_cap_t roots)) ro_in c0 ls in
+  nth_error roots i = Some (Pipe procs exps) ->
+  (exists p, In p procs /\ p = true) \/ fan_cap (new_fan (map node_cap exps)) = true ->
+  holds m i c -> holds m j c ->
+  j = i /\ cro (get (st m) c) = false.
+Proof.
+  intros m NE MUT Hi Hj.
+  assert (MC : mutc_of (map pipe_cap_t roots) i = true).
+  { unfold mutc_of. apply (map_nth_error pipe_cap_t) in NE.
+    rewrite (nth_error_nth _ _ false NE). cbn [pipe_cap_t]. now apply pipeline_cap_exact_l. }
+  split.
+  - eapply (mut_exclusive_l (map pipe_cap_t roots) ro_in c0 ls i j c); eauto.
+  - eapply (mutator_gets_mutable_l (map pipe_cap_t roots) ro_in c0 ls i c); eauto.
+Qed.
+
+(* pipelines that share a payload are all non-mutating (no mutating processor, exporter stage does not
+   write the original) and the payload is read-only *)
+Lemma shared_pipelines_readonly_l roots ro_in c0 ls i j c procs exps :
+  let m := run (new_fan (map pipe_cap_t roots)) ro_in c0 ls in
+  nth_error roots i = Some (Pipe procs exps) ->
+  holds m i c -> holds m j c -> i <> j ->
+  existsb id procs = false /\ fan_cap (new_fan (map node_cap exps)) = false /\ cro (get (st m) c) = true.
+Proof.
+  intros m NE Hi Hj N.
+  destruct (shared_readonly_l (map pipe_cap_t roots) ro_in c0 ls i j c Hi Hj N) as (_ & Mi & _ & R).
+  unfold mutc_of in Mi. apply (map_nth_error pipe_cap_t) in NE.
+  rewrite (nth_error_nth _ _ false NE) in Mi. cbn [pipe_cap_t] in Mi.
+  rewrite pipeline_cap_spec in Mi. apply orb_false_iff in Mi. tauto.
+Qed.
